@@ -50,6 +50,15 @@ pub fn cbits(x: f32) -> u32 {
     }
 }
 #[inline]
+/// Unit equality that also compiles with dimension checking compiled out (there `Unit` is zero-sized, has no
+/// `PartialEq`, and every unit "assumes ok": the comparison is then vacuously true).
+pub fn ueq(a: rrtk::Unit, b: rrtk::Unit) -> bool {
+    a.eq_assume_true(&b)
+}
+/// whether dimension checking is compiled into this build of the crate
+pub fn dim_checked() -> bool {
+    std::mem::size_of::<rrtk::Unit>() != 0
+}
 pub fn same(a: f32, b: f32) -> bool {
     cbits(a) == cbits(b)
 }
